@@ -640,6 +640,28 @@ Reposition(pre, e, post) ==
               v.oldA \doteq old[1] /\ v.oldB \doteq old[2] /\ v.newA \doteq new[1] /\ v.newB \doteq new[2]
               /\ v.oldLiq \doteq x.liq /\ v.newLiq \doteq a.newLiq)
 
+(* C16, "the user-facing quantities reported in events equal the amounts moved": the LiquidityRepositioned record names, per token,
+   the direction of the net transfer, the amount transferred (what the owner pays, fee included, or what the vault pays out) and the
+   transfer fee withheld from it.                                                                                          *)
+RepositionEventTransfers(pre, e, post) ==
+  LET k    == APos(e)
+      x    == pre.pos[k]
+      pool == pre.pool[x.pool]
+      a    == e.args
+      old  == IF x.liq \doteq 0 THEN <<0, 0>> ELSE TokenDeltas(pool.tick, pool.sqrtPrice, x.lo, x.up, P(pre, x.lo), P(pre, x.up), x.liq, FALSE)
+      new  == TokenDeltas(pool.tick, pool.sqrtPrice, a.newLo, a.newUp, P(post, a.newLo), P(post, a.newUp), a.newLiq, TRUE)
+      cA   == TfCfg(pre, pool.mintA, e.epoch)
+      cB   == TfCfg(pre, pool.mintB, e.epoch)
+      One(c, o, n, ua, from, xfer, fee) ==
+        /\ from = ~(n \prec o)
+        /\ xfer \doteq (IF n \prec o THEN o -- n ELSE 0 -- Delta(pre, post, ua))
+        /\ fee \doteq TfFee(c, xfer)
+  IN HasLiqEvent(e, "LiquidityRepositioned") /\
+     LET v == LiqEvent(e, "LiquidityRepositioned") IN
+       /\ Sub("token_a", One(cA, old[1], new[1], e.slots.token_owner_account_a.id, v.fromOwnerA, v.xferA, v.feeA))
+       /\ Sub("token_b", One(cB, old[2], new[2], e.slots.token_owner_account_b.id, v.fromOwnerB, v.xferB, v.feeB))
+       /\ Sub("ids_and_ranges", v.pool = x.pool /\ v.pos = k /\ v.oldLo = x.lo /\ v.oldUp = x.up /\ v.newLo = a.newLo /\ v.newUp = a.newUp)
+
 -----------------------------------------------------------------------------
 (* C14: adaptive fees.  o = oracle record of the pool (constants + variables), g = tick group. *)
 HardLimit == 100000
@@ -1599,7 +1621,9 @@ IxOK(pre, e, post) ==
   /\ IF e.name = "increase_liquidity_by_token_amounts_v2"
      THEN Chk("C08", "by_token_amounts", ByAmounts(pre, e, post)) /\ Chk("C16", "by_token_amounts_v2", ByAmounts(pre, e, post)) ELSE TRUE
   /\ IF e.name = "reposition_liquidity_v2"
-     THEN Chk("C08", "reposition_amounts", Reposition(pre, e, post)) /\ Chk("C16", "reposition_v2", Reposition(pre, e, post)) ELSE TRUE
+     THEN /\ Chk("C08", "reposition_amounts", Reposition(pre, e, post)) /\ Chk("C16", "reposition_v2", Reposition(pre, e, post))
+          /\ Chk("C16", "reposition_event_transfers", RepositionEventTransfers(pre, e, post))
+     ELSE TRUE
   /\ IF e.name \in {"increase_liquidity", "increase_liquidity_v2"}
      THEN Chk("C08", "increase_amounts", NoTransferFee(pre, pre.pos[APos(e)].pool) => C08Modify(pre, e, post, TRUE))
      ELSE TRUE
@@ -1651,7 +1675,10 @@ Next ==
        [] e.k = "ix" ->
             \* probes (matrix driver) are executed on a copy of the bank, possibly after a recorded tweak
             \* (preDiff) of the state; they are checked but do not advance the specification state
-            LET pre == IF e.hasPreDiff THEN ApplyDiff(st, e.preDiff) ELSE st IN
+            \* (the table of tick prices is only ever extended: the prices this event brings - e.g. of the tick a recorded tweak moved the
+            \* pool to - are available to the predicates about its pre-state as well)
+            LET pre0 == IF e.hasPreDiff THEN ApplyDiff(st, e.preDiff) ELSE st
+                pre  == [pre0 EXCEPT !.prices = MergeFn(st.prices, e.prices)] IN
             IF e.ok
             THEN LET post == Apply(pre, e) IN
                  /\ IxOK(pre, e, post)
